@@ -1078,7 +1078,8 @@ fn zero_amount_last(out: &mut Out, secp: &Secp256k1<All>, rng: &mut R) {
         let mut prng = R::seed_from_u64(rng.gen());
         let (r, _) = real_step(out, secp, true, &mut pset, &sup, &mut prng, &mut am);
         out.count(&format!("regress.zero_amount_last.{}.{}", if with_scalar { "vbf_nonzero" } else { "vbf_zero" }, match &r { Ok(_) => "ok".to_string(), Err(t) => t.clone() }));
-        out.s("zero_amount_is_an_error_not_a_panic", r == Err("Proof".to_string()), || format!("with_scalar {} result {:?}", with_scalar, r.as_ref().map(|_| ())));
+        out.s("zero_amount_is_an_error_not_a_panic", r != Err("panic".to_string()), || format!("with_scalar {} result {:?}", with_scalar, r.as_ref().map(|_| ())));
+        out.pin("zero_amount_error_variant", r == Err("Proof".to_string()), || format!("with_scalar {} result {:?}", with_scalar, r.as_ref().map(|_| ())));
     }
 }
 
